@@ -51,7 +51,8 @@ def plain(node):
                 key = name.ayns.native_value if isinstance(name, ConfigNode) else name
                 out[key] = plain(child)
             if isinstance(node, FunctionNode):
-                return {'__func__': node.ayns.func, '__kind__': type(node).__name__, 'args': out}
+                f = node.ayns.func
+                return {'__func__': str(f) if isinstance(f, str) else getattr(f, '__qualname__', type(f).__name__), '__kind__': type(node).__name__, 'args': out}
             return out
         out = [plain(child) for _, child in node.ayns.named_children()]
         if type(node).__name__ not in ('ConfigList',):
